@@ -62,6 +62,8 @@ pub struct ExecOpts {
     pub arena: u32,
     /// do not run the state-neutral probes after a failed allocation
     pub no_fail_probe: bool,
+    /// property in focus (see `violate`)
+    pub focus: Option<&'static str>,
 }
 
 pub struct Consts {
@@ -101,6 +103,7 @@ pub fn measure_consts() -> Consts {
 
 pub struct RunReport {
     pub violations: Vec<Violation>,
+    pub side: Vec<Violation>,
     pub trace: Vec<TraceItem>,
     pub stats: Stats,
     pub fp: u64,
@@ -123,6 +126,8 @@ pub struct Exec<'s, const M: usize> {
     pub events: Vec<Event>,
     pub limit: Option<usize>,
     pub viol: Vec<Violation>,
+    /// non-fatal violations of properties other than the one in focus
+    pub side: Vec<Violation>,
     pub trace: Vec<TraceItem>,
     pub stats: Stats,
     pub fp: Fp,
@@ -187,6 +192,7 @@ impl<'s, const M: usize> Exec<'s, M> {
             events: Vec::new(),
             limit: None,
             viol: Vec::new(),
+            side: Vec::new(),
             trace: Vec::new(),
             stats: Stats::default(),
             fp: Fp::new(),
@@ -208,7 +214,29 @@ impl<'s, const M: usize> Exec<'s, M> {
         }
     }
 
+    /// Violations of a property other than the one in focus that do not make the arena state
+    /// untrustworthy are recorded on the side and the run continues, so that a finding of one
+    /// property does not mask another property's oracle later in the same history.
+    fn is_fatal(prop: &str, oracle: &str) -> bool {
+        matches!(prop, "C01" | "C03" | "HARNESS")
+            || matches!(
+                oracle,
+                "try-method-panicked" | "method-panicked-internally" | "unbounded-allocator-retries" | "alignment-assertion"
+            )
+    }
+
     pub fn violate(&mut self, prop: &str, oracle: &str, facts: &str, detail: String) {
+        if let Some(focus) = self.opts.focus {
+            if focus != prop && !Self::is_fatal(prop, oracle) {
+                if self.side.len() < 8 {
+                    let sig = if facts.is_empty() { format!("{}/{}", prop, oracle) } else { format!("{}/{}/{}", prop, oracle, facts) };
+                    if !self.side.iter().any(|v| v.sig == sig) {
+                        self.side.push(Violation { prop: prop.to_string(), sig, op: self.cur_kind.to_string(), at: self.cur, detail });
+                    }
+                }
+                return;
+            }
+        }
         let sig = if facts.is_empty() {
             format!("{}/{}", prop, oracle)
         } else {
